@@ -23,7 +23,8 @@ MANIFEST = dict(
          "the measure per event compared with the integer TLC expects; the real tree's thresholds must sit on "
          "model thresholds. Marcus: TLC proves detailed balance, positivity and J^2-linearity of the transcribed "
          "rate expression on the integer log-lattice and each lattice point is evaluated by the real Rate_Engine.",
-    note="Trusted: TLC, the driver's -fno-access-control read of huffmanTree::htree (used to show that the real "
+    note="Histories: every call sequence up to the configured depth on one GNode with hop and decay events (BFS) plus "
+         "simulated longer ones; the property is checked after every MakeHuffTree. Trusted: TLC, the driver's -fno-access-control read of huffmanTree::htree (used to show that the real "
          "thresholds are the model's, so that probing is exact), exchange symmetry of equal-rate events in the "
          "thorough model (checked against the unreduced model in the quick configuration). Detailed balance is "
          "asserted in the anchor/physics sense ln(k12/k21) = (E1-E2+qF.R)/kT (DESIGN 7.4). Not covered: "
@@ -187,6 +188,110 @@ def _huffman_lattice(ctx, exe):
     ctx.extra["huffman_vectors"] = len(vecs)
     ctx.extra["huffman_transcription_drift"] = drift
     ctx.sample({"huffman_vector": {"rates": list(vecs[len(vecs) // 2][0]), "trees": vecs[len(vecs) // 2][1]["thr"]}})
+
+
+# ------------------------------------------------------------------------------------------
+def _huffman_history(ctx, exe):
+    """Mode H: call histories AddEvent / AddDecayEvent / InitEscapeRate / MakeHuffTree on ONE GNode."""
+    import json
+    cfg = "MCHuffHistQuick.cfg" if ctx.quick else "MCHuffHistThorough.cfg"
+    res = vlib.tlc("huffman", "MCHuffHist", cfg=cfg, workers=4, timeout=1500)
+    vlib.tlc_must_hold(res, "HuffHist: measure = rate/sum after every MakeHuffTree of every history")
+    ctx.add_tlc(cfg[:-4], res)
+    hists = [r["h"] for r in res.records]
+    if not ctx.quick:
+        sim = vlib.tlc("huffman", "MCHuffHist", cfg="MCHuffHistSim.cfg", workers=4, timeout=1500,
+                       simulate=1500, depth=14, seed=ctx.seed)
+        vlib.tlc_must_hold(sim, "HuffHist simulation")
+        ctx.add_tlc("MCHuffHistSim(simulate)", sim)
+        seen = set()
+        for r in sim.records:
+            k = json.dumps(r["h"], sort_keys=True)
+            if k not in seen:
+                seen.add(k)
+                hists.append(r["h"])
+    if not hists:
+        raise vlib.InfraError("no Huffman histories exported")
+    items, plans = [], []
+    for i, h in enumerate(hists):
+        cmds, plan = ["new"], []
+        for st in h:
+            if st["a"] in ("hop", "decay"):
+                cmds.append("%s %r" % (st["a"], float(st["r"])))
+            elif st["a"] == "init":
+                plan.append(("init", len(cmds), st))
+                cmds.append("init")
+            else:
+                S, n = st["sum"], len(st["rates"])
+                eps = 1e-12 * n
+                probes = []
+                for k in range(S + 1):
+                    probes.append(k / S)
+                    if k > 0:
+                        probes.append(k / S - eps)
+                    if k < S:
+                        probes.append(k / S + eps)
+                cell0 = len(probes)
+                for k in range(S):
+                    probes += [k / S + eps, (2 * k + 1) / (2.0 * S), (k + 1) / S - eps]
+                plan.append(("make", len(cmds), st, cell0, eps))
+                cmds.append("make")
+                cmds.append("probe %d %s" % (len(probes), " ".join(repr(p) for p in probes)))
+        items.append((i, cmds))
+        plans.append(plan)
+    results, crashes = vlib.run_items(exe, items)
+    for i, h in enumerate(hists):
+        ctx.traces += 1
+        rep = {"history": h}
+        if i in crashes:
+            ctx.violation("Huffman:history:crash", "driver died: " + crashes[i], rep)
+            continue
+        out = results[i]
+        ex = _exc(out)
+        if ex:
+            ctx.violation("Huffman:history:exception", "%s in history %s" % (ex, [(s["a"], s.get("r")) for s in h]), rep)
+            continue
+        for p in plans[i]:
+            st = p[2]
+            if p[0] == "init":
+                kinds = [s["a"] for s in h[:h.index(st)] if s["a"] in ("hop", "decay")]
+                kc = "decay" if "decay" in kinds else "hops"
+                esc = float(_line(out[p[1]], "esc")[0])
+                if esc != float(st["esc"]):
+                    ctx.violation("Huffman:history:escape-rate:" + kc,
+                                  "InitEscapeRate gave %r, sum of all event rates is %d (events %s)" % (esc, st["esc"], kinds), rep)
+                continue
+            _, ci, st, cell0, eps = p
+            S, n = st["sum"], len(st["rates"])
+            kc = "decay" if "decay" in st["kinds"] else "hops"
+            bc = "first-build" if st["nb"] == 1 else "rebuild"
+            if st["nb"] > 1 or kc == "decay":
+                ctx.nontriv(("hist", tuple(st["rates"]), tuple(st["kinds"]), st["nb"]))
+            tag = "%s:%s" % (bc, kc)
+            thr = [float(t) for t in _line(out[ci], "thr")]
+            sel = [int(t) for t in _line(out[ci + 1], "sel")]
+            what = "build %d of rates %s kinds %s" % (st["nb"], st["rates"], st["kinds"])
+            if any(not (0 <= x < n) for x in sel):
+                ctx.violation("Huffman:history:total:" + tag, "a probe in [0,1] selected no current event (%s)" % what, rep)
+                continue
+            off = [t for t in thr if abs(t * S - round(t * S)) > eps * S or not (-eps <= t <= 1 + eps)]
+            if off:
+                ctx.violation("Huffman:history:threshold-off-lattice:" + tag,
+                              "tree thresholds %s are not multiples of 1/%d (%s)" % (off, S, what), rep)
+            meas, bad = [0] * n, None
+            for k in range(S):
+                a, b, c = sel[cell0 + 3 * k: cell0 + 3 * k + 3]
+                if not (a == b == c):
+                    bad = (k, a, b, c)
+                meas[b] += 1
+            if bad:
+                ctx.violation("Huffman:history:cell-not-constant:" + tag,
+                              "selection changes inside the cell (%d/%d,%d/%d): %s (%s)" % (bad[0], S, bad[0] + 1, S, bad[1:], what), rep)
+            elif meas != st["exp"]:
+                ctx.violation("Huffman:history:measure:" + tag,
+                              "selection measure numerators %s over %d, expected %s (%s)" % (meas, S, st["exp"], what), rep)
+    ctx.extra["huffman_histories"] = len(hists)
+    ctx.sample({"huffman_history": hists[len(hists) // 2]})
 
 
 # ------------------------------------------------------------------------------------------
@@ -377,7 +482,8 @@ def run(ctx):
     exe = bindir + "/drv_huffman"
     ctx.rule = ("Huffman: one replayed behaviour per rate vector of the TLC lattice (build tree, probe every model "
                 "threshold +-eps, every threshold itself and every cell midpoint), non-trivial = ties, odd count or "
-                "ratio > 1000; one validated trace per random list (n<=100, 12 orders of magnitude); Marcus/wait: one "
+                "ratio > 1000; one replayed call history (AddEvent/AddDecayEvent/InitEscapeRate/MakeHuffTree on one GNode, probed "
+                "after every MakeHuffTree) per TLC history, non-trivial = rebuild or decay event; one validated trace per random list (n<=100, 12 orders of magnitude); Marcus/wait: one "
                 "evaluation per lattice point, non-trivial = equal-reorganisation point with field or outer-sphere term")
     ctx.assumptions += [
         "rates are integers, sum < 2^53: sums are exact in double; thresholds of the real tree are compared with "
@@ -393,6 +499,7 @@ def run(ctx):
         "Promotetime's uniform variate is scripted by replacing the distribution of KMCCalculator::RandomVariable_ "
         "with the degenerate uniform_real_distribution(r,r)"]
     _huffman_lattice(ctx, exe)
+    _huffman_history(ctx, exe)
     _huffman_wide(ctx, exe)
     _marcus(ctx, exe)
     _wait(ctx, exe)
